@@ -50,7 +50,7 @@ def handle (input : Json) : Except String Json := do
       | none => throw s!"schema token not understood for {op}"
     steps := steps + prog.length
     ths := ths ++ [⟨prog, [], .none, false⟩]
-  let s0 : XSt := ⟨List.replicate nm [], List.replicate nm [], ths⟩
+  let s0 : XSt := ⟨fun _ => [], fun _ => [], ths⟩
   let r := run (steps + 1) seed s0 false 0
   let logs := (List.range nm).map r.final.logOf
   -- a record is bad if it is duplicated (ids are unique per call)
